@@ -15,9 +15,11 @@ Record astate := { a_phase : phase; a_txn : txn; a_stored : nat (* recipients st
 
 Definition a_init : astate := {| a_phase := PInit; a_txn := None; a_stored := 0 |}.
 
-Definition env_of (t : txn) : bytes :=
+(** F<sender>NUL (T<recipient>NUL)* NUL; a recipient at an address literal (the local IP) is written with
+    the host name from control/localiphost instead *)
+Definition env_of (liphost : bytes) (t : txn) : bytes :=
   match t with
-  | Some (f, rs) => [70%N] ++ f ++ [0%N] ++ concat (map (fun a => [84%N] ++ a ++ [0%N]) rs) ++ [0%N]
+  | Some (f, rs) => [70%N] ++ f ++ [0%N] ++ concat (map (fun a => [84%N] ++ rewrite_literal liphost a ++ [0%N]) rs) ++ [0%N]
   | None => []
   end.
 
@@ -62,7 +64,7 @@ Definition trace_step (e : event) (a : astate) : option astate :=
   | Handoff env msg =>
       (* C08/C02: the envelope is exactly the open transaction *)
       match a_txn a with
-      | Some _ => if bytes_eqb env (env_of (a_txn a)) then Some a else None
+      | Some _ => if bytes_eqb env (env_of (o_liphost o) (a_txn a)) then Some a else None
       | None => None
       end
   | _ => Some a
@@ -105,5 +107,22 @@ Fixpoint queue_run (evs : list event) (q : qstate) : option qstate :=
   end.
 
 Definition queue_ok (evs : list event) : Prop := queue_run evs QIdle <> None.
+
+(** C15: the connection is closed by check_max_bad_commands() exactly when more than
+    MAXBADCMDS + 1 commands in a row were bad: every bad command below that is answered
+    and the session goes on; the counter restarts with every good command *)
+Definition bad_step (e : event) (c : nat) : option nat :=
+  match e with
+  | Note NBad => if Nat.leb c MAXBADCMDS then Some (S c) else None
+  | Note NBadReset => Some 0
+  | Note NBadClose => if Nat.ltb MAXBADCMDS c then Some c else None
+  | _ => Some c
+  end.
+Fixpoint bad_run (evs : list event) (c : nat) : option nat :=
+  match evs with
+  | [] => Some c
+  | e :: r => match bad_step e c with Some c' => bad_run r c' | None => None end
+  end.
+Definition bad_ok (evs : list event) : Prop := bad_run evs 0 <> None.
 
 End WithOracles.
